@@ -40,7 +40,7 @@ func handleHSET(params internal.HandlerFuncParams) ([]byte, error) {
 	}
 
 	for i := 2; i <= len(params.Command)-2; i += 2 {
-		entries[params.Command[i]] = internal.AdaptType(params.Command[i+1])
+		entries[params.Command[i]] = internal.AdaptValue(params.Command[i+1])
 	}
 
 	if !keyExists {
